@@ -1,4 +1,5 @@
 import TTModel.C05_SiteModel
+import TTGen.C05Options
 import TTProofs.Lemmas.Sums
 import TTProofs.Lemmas.ScalarReal
 import Mathlib.Algebra.Order.Field.Basic
@@ -301,5 +302,21 @@ example : InvOk (some (1 / 5)) ∧ MuOk (some 2) ∧ InvOk none ∧ MuOk none :=
   refine ⟨?_, ?_, ?_, ?_⟩ <;> intro x hx <;> cases hx <;> norm_num
 
 end weibull
+
+
+/-! ## construction route: `from_json` (table regenerated from the source on every run) -/
+
+/-- a JSON key reaches the constructor parameter it names; when an optional key is absent, what is
+forwarded is the constructor's own default for that parameter, or — if the constructor has no
+default — something other than `None` -/
+def optionEntryOk (e : TTGen.C05Options.Entry) : Bool :=
+  e.reached == e.expected &&
+    (!e.optional || (match e.ctorDefault with | some d => e.absent == d | none => e.absent != 0))
+
+/-- **options_reach_named_parameters**: the translator recognised every `from_json`, and in each of them
+every key (required or optional, positional or keyword) lands in the constructor parameter of its name -/
+theorem options_reach_named_parameters :
+    TTGen.C05Options.translatorOk = true ∧ TTGen.C05Options.entries.all optionEntryOk = true := by
+  decide
 
 end TTProps.C05
